@@ -42,3 +42,22 @@ MUTANTS += [
          desc='cursor advanced by the requested length before the underlying write reports how much it took',
          edits=[('iohelper/iohelper.go', 'n, err2 := s.w.WriteAt(p, s.off)\n\ts.off += int64(n)', 's.off += int64(len(p))\n\tn, err2 := s.w.WriteAt(p, s.off-int64(len(p)))')]),
 ]
+MUTANTS += [
+    # ---- C19
+    dict(name='c19-sigbits-scratch-hoisted', props=['C19'],
+         desc='get64Bits scratch buffer hoisted from a local to package scope (shared between callers)',
+         edits=[('sigbits/firstdiff.go', '\t\tbs := make([]byte, 8)\n\t\tcopy(bs, s)', '\t\tbs := scratch64[:]\n\t\tfor i := range bs {\n\t\t\tbs[i] = 0\n\t\t}\n\t\tcopy(bs, s)'),
+                ('sigbits/firstdiff.go', '', '\nvar scratch64 [8]byte\n')]),
+    dict(name='c19-join-masks-in-place', props=['C19'],
+         desc='Join normalises its argument in place (subs[i] &= Mask[size]) before packing',
+         edits=[('bitmap/join.go', '\t\tr[j>>6] |= (e & Mask[size]) << uint(j&63)\n', '\t\tsubs[i] = e & Mask[size]\n\t\tr[j>>6] |= subs[i] << uint(j&63)\n')]),
+    dict(name='c19-firstdiff-transient-arg-write', props=['C19'],
+         desc='FirstDiffBits temporarily swaps two keys of its argument slice and swaps them back (transient write to a shared argument)',
+         edits=[('sigbits/firstdiff.go', '\tds := make([]int32, l-1)\n\tfor i := 0; i < l-1; i++ {\n\t\tds[i] = sFirstDiffBit(keys[i], keys[i+1])\n\t}', '\tds := make([]int32, l-1)\n\tfor i := 0; i < l-1; i++ {\n\t\tkeys[i], keys[i+1] = keys[i+1], keys[i]\n\t\tds[i] = sFirstDiffBit(keys[i+1], keys[i])\n\t\tkeys[i], keys[i+1] = keys[i+1], keys[i]\n\t}')]),
+    dict(name='c19-indextopath-memo', props=['C19'],
+         desc='IndexToPath gets an unsynchronised one-entry memo cache (last arguments / last result) at package scope',
+         edits=[('bmtree/index.go', 'func IndexToPath(treeheight int32, index int32) uint64 {\n', 'func IndexToPath(treeheight int32, index int32) uint64 {\n\tif memoH == treeheight && memoI == index && memoOK {\n\t\treturn memoP\n\t}\n\tmemoOK = false\n\tmemoH, memoI = treeheight, index\n\tmemoP = indexToPath(treeheight, index)\n\tmemoOK = true\n\treturn memoP\n}\n\nvar (\n\tmemoH, memoI int32\n\tmemoP        uint64\n\tmemoOK       bool\n)\n\nfunc indexToPath(treeheight int32, index int32) uint64 {\n')]),
+    dict(name='c19-rank-transient-mask', props=['C19'],
+         desc='NextOne temporarily patches the shared RMask table entry and restores it (transient write to a package table)',
+         edits=[('bitmap/next.go', '\tword := bm[wordIdx] & RMask[bitIdx]\n\tif word != 0 {\n\t\tnxt = wordIdx<<6', '\tsavedM := RMask[bitIdx]\n\tRMask[bitIdx] = savedM & bm[wordIdx]\n\tword := RMask[bitIdx]\n\tRMask[bitIdx] = savedM\n\tif word != 0 {\n\t\tnxt = wordIdx<<6')]),
+]
